@@ -304,12 +304,36 @@ void do_op(Ctx &c, const Op &o, int idx) {
       ldb_uint64_t sz = 0;
       ldb_approximate_sizes(c.db, &r, 1, &sz);
       if (sz > simfs::total_bytes(c.dir) + 1) violation("C01", "approx_size", "approximate size %llu exceeds the bytes on disk", (unsigned long long)sz);
+      // several ranges in one call, one of them reversed (must be reported as empty)
+      { ldb_range_t rr[3]; rr[0] = r; rr[1].start = S(b); rr[1].limit = S(a); rr[2].start = S(a); rr[2].limit = S(a); ldb_uint64_t ss[3] = {7, 7, 7};
+        ldb_approximate_sizes(c.db, rr, 3, ss);
+        if (c.kc.cmp(a, b) != 0 && ss[1] != 0) violation("C01", "approx_size", "approximate size of a reversed range is %llu, expected 0", (unsigned long long)ss[1]);
+        if (ss[2] != 0) violation("C01", "approx_size", "approximate size of an empty range is %llu, expected 0", (unsigned long long)ss[2]);
+        ldb_approximate_sizes(c.db, rr, 0, ss); }
       break;
     }
     case O_PROPERTY: {
       static const char *props[] = {"leveldb.stats", "leveldb.approximate-memory-usage", "leveldb.num-files-at-level0", "leveldb.num-files-at-level3", "leveldb.sstables"};
       char *v = nullptr;
       if (ldb_property(c.db, props[(o.a < 0 ? 0 : o.a) % 5], &v) && v) ldb_free(v);
+      // C14: the per-level file counts agree with the listing (read at a quiescent point)
+      {
+        sim::drain();
+        std::vector<SstFile> files;
+        if (parse_sstables(db_sstables(c.db), &files)) {
+          int lvl = (int)(c.aux.below(7));
+          size_t want = 0; for (auto &f : files) if (f.level == lvl) want++;
+          char name[64]; snprintf(name, sizeof name, "leveldb.num-files-at-level%d", lvl);
+          char *nv = nullptr;
+          if (!ldb_property(c.db, name, &nv) || !nv) violation("C14", "property_missing", "property %s is not answered", name);
+          else { if ((size_t)atol(nv) != want) violation("C14", "num_files_mismatch", "%s = %s but leveldb.sstables lists %zu files at that level", name, nv, want); ldb_free(nv); }
+          count("level_count_checks");
+        }
+        static const char *bad[] = {"leveldb.num-files-at-level7", "leveldb.num-files-at-level1x", "leveldb.num-files-at-level", "num-files-at-level0", "leveldb.nosuchproperty", ""};
+        char *bv = nullptr;
+        const char *bn = bad[c.aux.below(6)];
+        if (ldb_property(c.db, bn, &bv)) { violation("C14", "property_bogus", "property '%s' is answered (%s) although no such property exists", bn, bv ? bv : "(null)"); if (bv) ldb_free(bv); }
+      }
       break;
     }
     case O_SWEEP:
@@ -507,6 +531,26 @@ Plan gen_model(uint64_t seed, const string &prop) {
     { Op o; o.kind = O_REOPEN; o.b = 0; p.ops.push_back(o); }
     nops = (int)r.range(10, 40);
     w[O_SNAP] = 0; w[O_KILL_RESTART] *= 0.3; w[O_SWEEP] *= 0.3; w[O_ITER_NEW] *= 0.3;
+    tot = 0; for (double x : w) tot += x;
+  } else if (special == 2) {
+    // style 6 (MANIFEST growth): with reuse_logs the descriptor is appended to across opens; 3 KiB keys make every
+    // flush add about 6 KiB of file bounds, so that after some 180 flushes it passes max_file_size and the next open
+    // must refuse to reuse it and write a compacted one
+    style = 6; p.seti("style", 6);
+    p.cfg.cmp = 0; p.cfg.reuse = 1; p.cfg.mfs = 1 << 20; p.cfg.wbs = 1 << 20; p.seti("clock_jumps", 0);
+    keys.clear();
+    for (int q = 0; q < 12; q++) { char b[16]; snprintf(b, sizeof b, "%02d", q); keys.push_back("L" + string((size_t)r.range(2700, 3000), 'k') + b); }
+    std::sort(keys.begin(), keys.end());
+    int nfl = (int)r.range(190, 230), every = (int)r.range(35, 70);
+    for (int f = 0; f < nfl; f++) {
+      Op o; o.kind = O_PUT; o.key = keys[r.below(keys.size())]; o.tag = tag++; o.len = (uint32_t)r.range(10, 200); o.fill = 0; p.ops.push_back(o);
+      Op fl; fl.kind = O_FLUSH; p.ops.push_back(fl);
+      if (f % every == every - 1) { Op ro; ro.kind = O_REOPEN; ro.b = 0; p.ops.push_back(ro); }
+    }
+    { Op ro; ro.kind = O_REOPEN; ro.b = 0; p.ops.push_back(ro); }
+    { Op ro; ro.kind = O_REOPEN; ro.b = 1; p.ops.push_back(ro); }
+    nops = (int)r.range(5, 25);
+    w[O_KILL_RESTART] *= 0.5;
     tot = 0; for (double x : w) tot += x;
   } else if (special == 1 && keys.size() >= 6) {
     style = 5; p.seti("style", 5);
